@@ -124,10 +124,9 @@ def r1_pairing(repo: Repo, rep):
             continue
         ops, d = _cat_operands(c.args[0])
         lv = [k for k, it in p.loopvars.items() if dump(it) in (cp, f"{cp}.keys()")]
-        rawret = getattr(p.ret_node, "value", None)
-        spname = None
-        if isinstance(rawret, ast.Call) and len(rawret.args) > 1 and isinstance(rawret.args[1], ast.Call) and rawret.args[1].args and isinstance(rawret.args[1].args[0], ast.Name):
-            spname = rawret.args[1].args[0].id  # the local mapping handed to Space(...)
+        # the local mapping handed to Space(...): the (only) local name that receives keyed stores in the loop over the coordinates
+        names = [dump(e.raw.value) for e in p.events if e.kind == "store" and e.raw is not None and isinstance(e.raw.value, ast.Name) and e.raw.value.id != cp]
+        spname = names[0] if names and len(set(names)) == 1 else None
         stores = [e for e in p.events if e.kind == "store" and e.raw is not None and spname is not None and dump(e.raw.value) == spname]
         good = bool(lv) and isinstance(ops, list) and len(ops) == 1 and d == "-1" and len(stores) == 1 and dump(stores[0].raw.slice) == lv[0]
         if good:
